@@ -589,6 +589,9 @@ impl WatchDispatcher {
         &self,
         event: WatchResponse,
     ) {
+        // Progress events report the highest revision handed to the watchers so far.
+        self.last_applied.fetch_max(event.revision, Ordering::Relaxed);
+
         // Step 1: exact match — O(1) DashMap lookup
         self.dispatch_to_map(&self.registry.exact, &event.key, &event).await;
 
